@@ -64,8 +64,17 @@ def storage(rng, D, csc, block_of, unsorted, zeros_in, zeros_out):
     return {"nmaj": n, "nmin": n, "indptr": indptr, "indices": indices, "data": data}
 
 
+def line_exps(case, n):
+    """Power-of-two exponent of every line: one common scale, or per line (blocks of very
+    different magnitude)."""
+    return list(case["bs"]) if "bs" in case else [case.get("e", 0)] * n
+
+
 def mk(M, csc, e=0):
     cls = sps.csc_matrix if csc else sps.csr_matrix
+    if isinstance(e, (list, tuple)):
+        line = np.repeat(np.arange(M["nmaj"]), np.diff(M["indptr"]))
+        e = np.array(e, dtype=float)[line] if line.size else 0
     return cls((np.array(M["data"], dtype=float) * 2.0 ** e, np.array(M["indices"], dtype=np.int32),
                 np.array(M["indptr"], dtype=np.int32)), shape=(M["nmaj"], M["nmin"]))
 
@@ -87,9 +96,8 @@ def lu_storage(case):
 
 def build_perm_input(case):
     """The matrix handed to the permutation functions, in the sparse format of the case."""
-    e = case.get("e", 0)
-    D = np.array(case["D"], dtype=float) * 2.0 ** e
-    n = D.shape[0]
+    n = len(case["D"])
+    D = np.array(case["D"], dtype=float) * 2.0 ** np.array(line_exps(case, n), dtype=float)[:, None]
     coo = sps.coo_matrix(sps.csr_matrix(D))
     rows = list(coo.row) + [z[0] for z in case["stored_zeros"]]
     cols = list(coo.col) + [z[1] for z in case["stored_zeros"]]
@@ -161,10 +169,11 @@ def guarded(f):
 
 
 def frac_inverse_defect(D, Ai, tol=Fraction(1, 10**9), e=0):
-    """max |D.Ai - I|, |Ai.D - I| in exact rationals (D = integers * 2**e); None if within tol."""
+    """max |D.Ai - I|, |Ai.D - I| in exact rationals (row i of D = integers * 2**e_i); None if
+    within tol."""
     n = len(D)
-    sc = Fraction(2) ** e
-    Df = [[Fraction(int(x)) * sc for x in r] for r in D]
+    es = list(e) if isinstance(e, (list, tuple)) else [e] * n
+    Df = [[Fraction(int(x)) * Fraction(2) ** es[i] for x in r] for i, r in enumerate(D)]
     Af = [[Fraction(float(x)) for x in r] for r in Ai]
     if len(Af) != n or any(len(r) != n for r in Af):
         return "shape"
@@ -237,7 +246,9 @@ class C37(Prop):
             "triangular matrices (unsorted indices as scipy leaves them); permuted "
             "case (matrix handed over as csr, csc, coo with entries in arbitrary order, bsr, "
             "csr/csc with shuffled indices; independent row and column permutations): permuted diagonal matrices (singleton blocks, non-symmetric pattern), random row and column permutations of such a matrix, stored zeros, plus "
-            "matrices with non-square components (AssertionError branch). All values scaled by an exact power of two "
+            "matrices with non-square components (AssertionError branch). Directed: >= 3 blocks each scaled by its own power of two "
+            "(exponents in [-70, 70], contrast >= 2^56 between two blocks), for the permutation "
+            "functions and both block inverters. All values scaled by an exact power of two "
             "2^e (e = 0, |e| <= 8, or 40 <= |e| <= 60). Non-trivial = at "
             "least two blocks or a block of size >= 2.")
     trusted = [
@@ -255,6 +266,9 @@ class C37(Prop):
     def generate(self, rng, n, tier):
         big = tier != "quick"
         for k in range(n):
+            if k % 8 in (1, 6):
+                yield self.g_contrast(rng, big, perm=(k % 8 == 1))
+                continue
             if k % 8 == 5:
                 c = self.g_permdiag(rng, big)
             elif k % 8 == 7:
@@ -273,6 +287,35 @@ class C37(Prop):
                                        "csc_unsorted"])
                 c["shuf"] = rng.randrange(10**6)
             yield c
+
+    def g_contrast(self, rng, big, perm):
+        """>= 3 blocks of small integers, block b scaled by 2^(e_b) with the exponents spread
+        over [-70, 70] and a contrast of more than 2^53 between some pair of blocks."""
+        nb = rng.randint(3, 5)
+        sizes = [rng.randint(1, 3) for _ in range(nb)]
+        exps = [rng.randint(-70, 70) for _ in range(nb)]
+        i, j = rng.sample(range(nb), 2)
+        exps[i], exps[j] = rng.randint(28, 70), -rng.randint(28, 70)  # contrast >= 2^56
+        blocks = [unimodular(rng, s_, rng.choice([1, 2])) for s_ in sizes]
+        n = sum(sizes)
+        D = np.zeros((n, n), dtype=int)
+        block_of, bs, off = [], [], 0
+        for b, (s_, B) in enumerate(zip(sizes, blocks)):
+            D[off:off + s_, off:off + s_] = B
+            block_of += [b] * s_
+            bs += [exps[b]] * s_
+            off += s_
+        if not perm:
+            csc = rng.random() < 0.4
+            M = storage(rng, D, csc, block_of, unsorted=rng.random() < 0.6, zeros_in=0,
+                        zeros_out=rng.choice([0, 0.1]))
+            return {"kind": "bd", "csc": csc, "M": M, "sz": list(sizes), "bs": bs}
+        rp = rng.sample(range(n), n)
+        cp = rng.sample(range(n), n)
+        return {"kind": "perm", "D": D[rp, :][:, cp].tolist(), "stored_zeros": [],
+                "bs": [bs[r] for r in rp],
+                "fmt": rng.choice(["csr", "csc", "coo", "csr_unsorted", "csc_unsorted"]),
+                "shuf": rng.randrange(10**6)}
 
     def g_lu(self, rng, big):
         """Block-diagonal matrix given as the scipy product L @ U (unsorted indices as scipy
@@ -383,8 +426,8 @@ class C37(Prop):
 
         if case["kind"] == "bd":
             csc = case["csc"]
-            e = case.get("e", 0)
             M = case["M"] if "M" in case else lu_storage(case)
+            e = line_exps(case, M["nmaj"])
             sz = np.array(case["sz"], dtype=np.int64)
             calls, blocks, layout = [], [], []
             real_ss, real_inv = np.searchsorted, np.linalg.inv
@@ -422,14 +465,16 @@ class C37(Prop):
                    "nnz": nnz[0] if nnz else None, "M": M}
             if "ok" in rpy:
                 # the block as the line-wise model sees it: transposed for csc
-                res["blocks"] = [((B.T if csc else B) / 2.0 ** e).tolist() for B in blocks]
+                starts = np.cumsum([0] + [int(x) for x in sz if x > 0])
+                res["blocks"] = [((B.T if csc else B) / 2.0 ** e[int(starts[i])]).tolist()
+                                 for i, B in enumerate(blocks)]
                 res["layout"] = layout[0]
             return res
 
         # permuted block-diagonal matrix
-        e = case.get("e", 0)
-        D = np.array(case["D"], dtype=float) * 2.0 ** e
-        n = D.shape[0]
+        n = len(case["D"])
+        e = line_exps(case, n)
+        D = np.array(case["D"], dtype=float) * 2.0 ** np.array(e, dtype=float)[:, None]
         A = build_perm_input(case)
         assert np.array_equal(A.toarray(), D)
         res = {"stored": int(A.nnz)}
@@ -453,22 +498,24 @@ class C37(Prop):
 
         res["inv"] = guarded(run)
         if captured:
-            res["abd"] = [ints(r) for r in captured[0][0] / 2.0 ** e]
+            # row i of the block form is row rp[i] of A: undo that row's scale
+            res["abd"] = [ints(r / 2.0 ** e[int(rp[i])]) for i, r in enumerate(captured[0][0])]
         return res
 
     # ---------------------------------------------------------------- oracle
     def oracle(self, case, res):
         if case["kind"] == "bd":
             D = dense_of(res["M"], case["csc"])
-            e = case.get("e", 0)
+            e = line_exps(case, D.shape[0])
             for bk in ("py", "nb"):
                 r = res[bk]
                 if "err" in r:
                     return (f"invert_diagonal_blocks({bk}) raised {r['err']} ({r.get('msg')}) on a "
                             f"nonsingular block-diagonal matrix, sizes {case['sz']}")
                 Ai = np.array(r["ok"])
-                ref = np.linalg.inv(D) / 2.0 ** e
-                if Ai.shape != D.shape or not np.allclose(Ai * 2.0 ** e, ref * 2.0 ** e, rtol=1e-9, atol=1e-9):
+                ref = np.linalg.inv(D)  # D: the integer matrix; Ai column j is scaled by 2**-e_j
+                if Ai.shape != D.shape or not np.allclose(
+                        Ai * 2.0 ** np.array(e, dtype=float)[None, :], ref, rtol=1e-9, atol=1e-9):
                     return f"{bk} backend: result differs from the dense inverse"
                 d = frac_inverse_defect(D.astype(int).tolist(), r["ok"], e=e)
                 if d is not None:
@@ -496,8 +543,9 @@ class C37(Prop):
         if "err" in r:
             return f"invert_permuted_block_diag_matrix raised {r['err']} ({r.get('msg')})"
         Ai = np.array(r["ok"])
-        e = case.get("e", 0)
-        if Ai.shape != D.shape or not np.allclose(Ai * 2.0 ** e, np.linalg.inv(D), rtol=1e-9, atol=1e-9):
+        e = line_exps(case, n)
+        if Ai.shape != D.shape or not np.allclose(
+                Ai * 2.0 ** np.array(e, dtype=float)[None, :], np.linalg.inv(D), rtol=1e-9, atol=1e-9):
             return "permuted inverter: result differs from the dense inverse"
         d = frac_inverse_defect(D.astype(int).tolist(), r["ok"], e=e)
         if d is not None:
@@ -512,6 +560,11 @@ class C37(Prop):
             blocks = ({"ok": res["blocks"]} if "ok" in res["py"] else {"err": res["py"]["err"]})
             cbl = cres(blocks, lambda bs: clist(bs, lambda b: cmatz([ints(r) for r in b])))
             lay = res.get("layout", ([], []))
+            if "bs" in case:
+                rs = clist([Fraction(2) ** x for x in case["bs"]], cq)
+                return (f"tie_bd_r {cbool(case['csc'])} {ccsr(res['M'])} {clist(case['sz'], cnat)} "
+                        f"{rs} {clist(res['nnz'], cnat)} {cbl} {cres(res['py'], cmatq)} "
+                        f"{cres(res['nb'], cmatq)} {clist(lay[0], cnat)} {clist(lay[1], cnat)}")
             return (f"tie_bd_s {cbool(case['csc'])} {ccsr(res['M'])} {clist(case['sz'], cnat)} "
                     f"{cq(Fraction(2) ** case.get('e', 0))} "
                     f"{clist(res['nnz'], cnat)} {cbl} {cres(res['py'], cmatq)} "
@@ -521,6 +574,10 @@ class C37(Prop):
         cperm = cres(p, lambda t: f"({clist(t[0], cnat)}, {clist(t[1], cnat)}, {clist(t[2], cnat)})")
         abd = res.get("abd", [])
         inv = res.get("inv", {"err": "Undefined"})
+        if "bs" in case:
+            rs = clist([Fraction(2) ** x for x in case["bs"]], cq)
+            return (f"tie_perm_r {cnat(n)} {cmatz(case['D'])} {rs} {cperm} {cmatz(abd)} "
+                    f"{cres(inv, cmatq)}")
         return (f"tie_perm_s {cnat(n)} {cmatz(case['D'])} {cq(Fraction(2) ** case.get('e', 0))} "
                 f"{cperm} {cmatz(abd)} {cres(inv, cmatq)}")
 
